@@ -576,5 +576,164 @@ func searchMultiAll(g *gen, n int) {
 		default:
 			searchMulti(g.multi(multiOpts{big: true, bigDur: i%8 == 7}))
 		}
+		if i%10 == 0 {
+			searchSkew(g.multi(multiOpts{skew: true}))
+		}
 	}
+}
+
+// ---------------------------------------------------------------- corr: R lines (re-encoding, byte level)
+
+// singleTrunDoff: own walk of a moof: if it holds exactly one trun in all its trafs and that trun has the
+// data-offset-present flag, the byte offset of the data_offset field within the moof.
+func singleTrunDoff(moof []byte) (int, bool) {
+	ntrun, pos, flagged := 0, 0, false
+	for p := 8; p+8 <= len(moof); {
+		sz := int(binary.BigEndian.Uint32(moof[p:]))
+		if sz < 8 || p+sz > len(moof) {
+			return 0, false
+		}
+		if string(moof[p+4:p+8]) == "traf" {
+			for q := p + 8; q+8 <= p+sz; {
+				cs := int(binary.BigEndian.Uint32(moof[q:]))
+				if cs < 8 || q+cs > p+sz {
+					return 0, false
+				}
+				if string(moof[q+4:q+8]) == "trun" {
+					ntrun++
+					pos = q + 16
+					flagged = moof[q+11]&1 != 0
+				}
+				q += cs
+			}
+		}
+		p += sz
+	}
+	if ntrun == 1 && flagged {
+		return pos, true
+	}
+	return 0, false
+}
+
+// emitReencode: R <id> <flags> <boxes> <per box: - | doffpos-or-minus:hex of the moof> <obs>
+// obs: err | panic | ok:<per written box: class of the identical input box | X:hex>
+func emitReencode(id string, l *layout) {
+	data := l.bytes()
+	var mi []string
+	for _, e := range l.els {
+		if e.kind != 'o' {
+			mi = append(mi, "-")
+			continue
+		}
+		p := "-"
+		if pos, ok := singleTrunDoff(e.data); ok {
+			p = hexN(uint64(pos))
+		}
+		mi = append(mi, p+":"+hx.Hex(e.data))
+	}
+	obs := ""
+	f, class := decodeLayout(l, data)
+	if class != "ok" {
+		obs = "decode-" + class
+	} else {
+		var buf bytes.Buffer
+		var err error
+		p := hx.Try(func() { err = f.Encode(&buf) })
+		switch {
+		case p != "":
+			obs = "panic"
+		case err != nil:
+			obs = "err"
+		default:
+			enc := buf.Bytes()
+			sb, ok := scanTop(enc)
+			if !ok {
+				obs = "ok:unscannable"
+				break
+			}
+			cls := l.classes()
+			res := make([]string, len(sb))
+			for i, b := range sb {
+				bb := enc[b.pos : b.pos+b.size]
+				res[i] = "X:" + hx.Hex(bb)
+				for j, e := range l.els {
+					if bytes.Equal(e.data, bb) {
+						res[i] = fmt.Sprint(cls[j])
+						break
+					}
+				}
+			}
+			obs = "ok:" + strings.Join(res, ",")
+		}
+	}
+	mis := strings.Join(mi, ";")
+	if len(mi) == 0 {
+		mis = "-"
+	}
+	fmt.Fprintf(out, "R\t%s\t%d%d\t%s\t%s\t%s\n", id, b2i(l.ism), b2i(l.som), l.describe(), mis, obs)
+}
+
+func corrReencode(g *gen, n int) {
+	for i := 0; i < n; i++ {
+		switch i % 3 {
+		case 0:
+			emitReencode(fmt.Sprintf("rs-%d", i), g.multi(multiOpts{skew: true}))
+		case 1:
+			emitReencode(fmt.Sprintf("rk-%d", i), g.multi(multiOpts{}))
+		default:
+			d := delims[g.r.Intn(len(delims))]
+			emitReencode(fmt.Sprintf("rr-%d", i), g.structured(1+g.r.Intn(3), 1+g.r.Intn(3), 1+g.r.Intn(3), d, g.r.Bool(), g.r.Bool(), g.r.Bool()))
+		}
+	}
+}
+
+// searchSkew: byte identity of decode + Encode on files whose single-trun fragments carry a data offset that
+// does not point at the first payload byte (legal: unreferenced bytes at the start of the mdat).
+// The property asks for byte identity. A difference confined to the data_offset field of single-trun moofs is
+// reported under its own signature (Fragment.SetTrunDataOffsets rewrites that field); anything else as
+// segment-mode-bytes.
+func searchSkew(l *layout) {
+	evals++
+	data := l.bytes()
+	f, class := l.decode()
+	if class != "ok" {
+		fail("DecodeFile", "rejects-wellformed/"+class, shortWitness(l), "a well-formed synthesized multi-track file is not decoded: "+class)
+		return
+	}
+	var buf bytes.Buffer
+	var err error
+	p := hx.Try(func() { err = f.Encode(&buf) })
+	if p != "" || err != nil {
+		fail("File.Encode", "segment-mode-fails", shortWitness(l), fmt.Sprintf("re-encoding fails: %v %s", err, p))
+		return
+	}
+	enc := buf.Bytes()
+	if bytes.Equal(enc, data) {
+		return
+	}
+	if len(enc) == len(data) {
+		// mask the data_offset fields of single-trun moofs in both
+		a, b := append([]byte(nil), data...), append([]byte(nil), enc...)
+		first := ""
+		for _, e := range l.els {
+			if e.kind != 'o' {
+				continue
+			}
+			if pos, ok := singleTrunDoff(e.data); ok {
+				o := int(e.pos) + pos
+				if first == "" && !bytes.Equal(a[o:o+4], b[o:o+4]) {
+					first = fmt.Sprintf("moof at %d (%d bytes, mdat header %d): data_offset %d in the input, %d in the output",
+						e.pos, len(e.data), 8, int32(binary.BigEndian.Uint32(a[o:])), int32(binary.BigEndian.Uint32(b[o:])))
+				}
+				copy(a[o:o+4], []byte{0, 0, 0, 0})
+				copy(b[o:o+4], []byte{0, 0, 0, 0})
+			}
+		}
+		if bytes.Equal(a, b) {
+			fail("Fragment.SetTrunDataOffsets", "single-trun-data-offset-rewritten", shortWitness(l),
+				"decode + Encode is not byte-identical: the data offset of a fragment's only trun is overwritten with moof size + mdat header size; "+first)
+			return
+		}
+	}
+	fail("File.Encode", "segment-mode-bytes", shortWitness(l), fmt.Sprintf("re-encoded %d bytes differ from the %d input bytes", len(enc), len(data)))
 }
